@@ -28,6 +28,7 @@ def module_tree(relpath):
 def find_function(qualname):
     """qualname = 'pygamma_agreement/x.py::Class.method' or '...::Class.compile_d_mat.<locals>.d_mat'."""
     relpath, _, dotted = qualname.partition("::")
+    dotted = dotted.partition("#")[0]          # 'f#variant': a second contract of the same function (other receiver class)
     tree, _src = module_tree(relpath)
     node = tree
     for part in dotted.split("."):
@@ -75,7 +76,7 @@ def fingerprint(node):
 def describe(qualname):
     node = find_function(qualname)
     relpath = qualname.partition("::")[0]
-    return {"name": qualname.partition("::")[2], "file": relpath,
+    return {"name": qualname.partition("::")[2], "file": relpath.partition("#")[0],
             "lines": [node.lineno, node.end_lineno], "sha256": fingerprint(node)}
 
 
